@@ -41,12 +41,17 @@ def known_symm_radius(case, failing):
     """F2: run_symm: a visit labelled 'backward' fixes the eccentricity of its start vertex without updating the
     radius upper bound, so the radius can be reported too large (and the radial vertex wrong)."""
     names = set(f.split(":")[0] for f in failing)
-    if case.get("sym") != "1" or not names <= {"radius", "rv", "exact"} or not (names & {"radius", "rv"}):
+    if case.get("sym") != "1" or names != {"radius", "exact"}:
         return None
-    # the class: some backward-labelled visit started from a vertex whose eccentricity is below the reported radius;
-    # recognised from the step log: the run contains a backward visit
+    # the class: a backward-labelled visit exists and the reported radius is LARGER than the specification's
+    detail = [f for f in failing if f.startswith("radius:")][0]
+    spec = detail.split("spec:")[-1].rstrip(")").split("|")
     steps = case.get("steps", "")
-    if any(t.startswith("B") for t in steps.split(",")):
+    try:
+        too_large = all(v != "none" and int(case.get("radius")) > int(v) for v in spec)
+    except ValueError:
+        return None
+    if too_large and any(t.startswith("B") for t in steps.split(",")):
         return ("run_symm: backwards_step_sum_sweep sets the eccentricity of its start vertex but does not update "
                 "radius_high/radius_vertex, so the vertex is never counted again and the reported radius can exceed the true one "
                 "(e.g. symmetric graph {1-1 loop}, isolated 0: radius=1 instead of 0; a 30-node path-like graph at level "
